@@ -121,7 +121,11 @@ func newEnv(shards []jshard) *env {
 	_, err = e.mc.CreateDatabase(e.db)
 	must(err)
 	data := e.mc.Data()
-	data.Databases[0].RetentionPolicies[0].ShardGroupDuration = time.Duration(groupDur)
+	dur := int64(groupDur)
+	if len(shards) > 0 && shards[0].End-shards[0].Start > dur {
+		dur = shards[0].End - shards[0].Start // wide shard groups (long series)
+	}
+	data.Databases[0].RetentionPolicies[0].ShardGroupDuration = time.Duration(dur)
 	must(e.mc.SetData(&data))
 
 	e.ts = tsdb.NewStore(filepath.Join(e.root, "data"))
@@ -471,7 +475,46 @@ func tagsTerm(t [][2]string) string {
 	}
 	return vh.List(xs)
 }
+
+// ptsTerm renders a point list; runs of >= 8 points in which time and value both advance by 1
+// are written as (rampn n t v) (defined in the shard header), segments are joined with app.
 func ptsTerm(p [][2]int64) string {
+	var segs []string
+	for i := 0; i < len(p); {
+		j := i + 1
+		for j < len(p) && p[j][0] == p[j-1][0]+1 && p[j][1] == p[j-1][1]+1 {
+			j++
+		}
+		if j-i >= 8 {
+			segs = append(segs, fmt.Sprintf("(rampn (N.to_nat %d%%N) %s %s)", j-i, zz(p[i][0]), zz(p[i][1])))
+			i = j
+			continue
+		}
+		// a plain segment up to the next long run
+		k := i
+		for k < len(p) {
+			j = k + 1
+			for j < len(p) && p[j][0] == p[j-1][0]+1 && p[j][1] == p[j-1][1]+1 {
+				j++
+			}
+			if j-k >= 8 {
+				break
+			}
+			k = j
+		}
+		segs = append(segs, ptsPlain(p[i:k]))
+		i = k
+	}
+	if len(segs) == 0 {
+		return "[]"
+	}
+	t := segs[len(segs)-1]
+	for i := len(segs) - 2; i >= 0; i-- {
+		t = "(app " + segs[i] + " " + t + ")"
+	}
+	return t
+}
+func ptsPlain(p [][2]int64) string {
 	xs := make([]string, len(p))
 	for i, tv := range p {
 		xs[i] = vh.Pair(zz(tv[0]), zz(tv[1]))
@@ -717,6 +760,54 @@ func genLarge(w *vh.W, kind int) ([]jshard, *jcase) {
 	}
 	w.Count("large_group_read", fmt.Sprintf("kind%d", kind))
 	return shards, c
+}
+
+// genLong: a group read with a field-value predicate over 2-4 series of which one has
+// 1500-2600 points (value = time, so the cursors deliver arrays of 1000) whose first array matches
+// the predicate only partially: the filter cursor's 1000-point result array then fills in the
+// middle of a source array and the rest is buffered (tmp) inside the SHARED filter object.
+func genLong(w *vh.W, pick bool) ([]jshard, *jcase) {
+	r := w.Rng
+	const width = 10000
+	nser := 2 + r.IntN(3)
+	big := r.IntN(nser)
+	if pick || r.IntN(2) == 0 {
+		big = nser - 1 // the last series probed by seriesHasPoints
+	}
+	npts := 1500 + r.Int64N(1101)
+	thr := 100 + r.Int64N(800)
+	sh := jshard{Start: 0, End: width, Flush: r.IntN(2) == 0, Data: []jsd{}}
+	for i := 0; i < nser; i++ {
+		sd := jsd{M: "m0", Tags: [][2]string{{"t0", string(rune('a' + i))}}}
+		jf := jfield{Name: "f0"}
+		if i == big {
+			for t := int64(0); t < npts; t++ {
+				jf.Pts = append(jf.Pts, [2]int64{t, t})
+			}
+		} else {
+			t := r.Int64N(50)
+			for k := 0; k < 2+r.IntN(4); k++ {
+				jf.Pts = append(jf.Pts, [2]int64{t, r.Int64N(3000)})
+				t += 1 + r.Int64N(500)
+			}
+		}
+		sd.Fields = []jfield{jf}
+		sh.Data = append(sh.Data, sd)
+	}
+	c := &jcase{Shards: []jshard{sh}, Start: 0, End: width, Req: "groupby", Keys: []string{"t0"},
+		Pred: &jpred{Op: "val", Vop: "gt", N: thr}}
+	if !pick {
+		switch r.IntN(4) {
+		case 0:
+			c.Req, c.Keys = "groupnone", []string{}
+		case 1:
+			c.Keys = []string{"_field"}
+		case 2:
+			c.Pred = &jpred{Op: "val", Vop: "ge", N: thr}
+		}
+	}
+	w.Count("long_series_group_read", fmt.Sprintf("big=%d/%d", big+1, nser))
+	return []jshard{sh}, c
 }
 
 func genCmp(w *vh.W) *jpred {
@@ -1057,8 +1148,8 @@ func runCase(w *vh.W, e *env, c *jcase) {
 }
 
 func main() {
-	w := vh.New("C21", "From Coq Require Import String Ascii.\nFrom Verif Require Import Base.Prelude Model.C21.\nOpen Scope string_scope.\n"+internHeader, "case", "check")
-	w.Rule = "dataset: 1-3 shard groups of 10ns (at 0,10,20; random creation order; a third flushed to TSM half-way), 1-7 (sometimes 10-18) series out of 2 measurements x {t0,t1} x {absent,a,b}, fields f0(int)/f1(float)/f2(int), 1-6 points per series-field-shard biased to the first/last instant of the shard, all values distinct; 6 (12 when n >= 2000) requests per dataset: ReadFilter / ReadGroup(GroupBy|GroupNone, 0-3 keys of t0,t1,_measurement,_field,tx, HintSchemaAllTime 1/5) with range ends from {MinInt64, MinNanoTime, shard boundaries +-1, random in [-2,33), MaxNanoTime, MaxInt64} and a predicate (3/4) of depth <= 2 over = / != on _measurement,_field,t0,t1,tx with AND/OR/parentheses; in a third of the requests leaves are also field-value comparisons ($ = != < <= > >= integer literal within the data set's value range). Additionally 2 hand-picked and about 1 in 200 (1 in 400 when n >= 2000) LARGE GroupBy reads: 700-780 series with two tags or 350-400 series with five tags (n >= 2000: also 1030-1100 series with one tag), one point per series and shard, 1-2 shards, several groups (more than 4096 copied tag entries, i.e. beyond one tagsBuffer slab). Non-trivial: >= 2 returned rows have points and (when there are >= 2 shards) some row has points of more than one shard. Distinct: distinct Gallina terms."
+	w := vh.New("C21", "From Coq Require Import String Ascii.\nFrom Verif Require Import Base.Prelude Model.C21.\nOpen Scope string_scope.\nFixpoint rampn (n : nat) (t v : Z) : list (Z * Z) := match n with O => [] | S k => (t, v) :: rampn k (t + 1)%Z (v + 1)%Z end.\n"+internHeader, "case", "check")
+	w.Rule = "dataset: 1-3 shard groups of 10ns (at 0,10,20; random creation order; a third flushed to TSM half-way), 1-7 (sometimes 10-18) series out of 2 measurements x {t0,t1} x {absent,a,b}, fields f0(int)/f1(float)/f2(int), 1-6 points per series-field-shard biased to the first/last instant of the shard, all values distinct; 6 (12 when n >= 2000) requests per dataset: ReadFilter / ReadGroup(GroupBy|GroupNone, 0-3 keys of t0,t1,_measurement,_field,tx, HintSchemaAllTime 1/5) with range ends from {MinInt64, MinNanoTime, shard boundaries +-1, random in [-2,33), MaxNanoTime, MaxInt64} and a predicate (3/4) of depth <= 2 over = / != on _measurement,_field,t0,t1,tx with AND/OR/parentheses; in a third of the requests leaves are also field-value comparisons ($ = != < <= > >= integer literal within the data set's value range). Additionally 2 hand-picked and about 1 in 200 (1 in 400 when n >= 2000) LARGE GroupBy reads: 700-780 series with two tags or 350-400 series with five tags (n >= 2000: also 1030-1100 series with one tag), one point per series and shard, 1-2 shards, several groups (more than 4096 copied tag entries, i.e. beyond one tagsBuffer slab). Also 1 hand-picked and about 1 in 150 group reads with a value predicate over 2-4 series of which one has 1500-2600 points (value = time, arrays of 1000) whose first array matches only partially. Non-trivial: >= 2 returned rows have points and (when there are >= 2 shards) some row has points of more than one shard. Distinct: distinct Gallina terms."
 	var rc jcase
 	if w.ReplayCase(&rc) {
 		e := newEnv(rc.Shards)
@@ -1172,6 +1263,12 @@ func main() {
 		runCase(w, e, c)
 		e.close()
 	}
+	{ // a series with > 1000 matching points read through the shared filter cursor
+		shards, c := genLong(w, true)
+		e := newEnv(shards)
+		runCase(w, e, c)
+		e.close()
+	}
 	largeEvery := 200
 	if w.N >= 2000 {
 		largeEvery = 400
@@ -1181,6 +1278,13 @@ func main() {
 		perDataset = 12 // thorough tier: amortise the cost of building a store
 	}
 	for w.Len() < w.N {
+		if w.Rng.IntN(150) == 0 {
+			shards, c := genLong(w, false)
+			e := newEnv(shards)
+			runCase(w, e, c)
+			e.close()
+			continue
+		}
 		if w.Rng.IntN(largeEvery) == 0 {
 			kind := 1 + w.Rng.IntN(2)
 			if w.N >= 2000 && w.Rng.IntN(3) == 0 {
